@@ -123,7 +123,9 @@ class LRTDP(Plans):
             for a in mdp.actions(s):
                 ns_dist = mdp.next_state_dist(s, a)
                 val = ns_dist.expectation(
-                    lambda ns : mdp.reward(s, a, ns) + mdp.discount_rate*heuristic(ns)
+                    lambda ns : mdp.reward(s, a, ns) + mdp.discount_rate*(
+                        0 if mdp.is_absorbing(ns) else res.V[ns]
+                    )
                 ) 
                 if val > max_val:
                     max_actions = [a]
